@@ -120,6 +120,14 @@ Load(d) ==
   ELSE Scan(d.ch, 1, Empty)
 
 LoadMap(d) == Load(d).m
+
+\* As built, several failed block writes in a row leave a run of torn pieces at the end of the file.  What the
+\* reader makes of their concatenation depends on the bytes: end of file after the last complete block, or an
+\* error.  TornRunPrefix(d) is the first outcome (only meaningful when TornRun(d)).
+FirstTorn(ch) == IF \E i \in DOMAIN ch : IsTorn(ch[i]) THEN CHOOSE i \in DOMAIN ch : IsTorn(ch[i]) /\ \A j \in 1..(i - 1) : ~IsTorn(ch[j]) ELSE 0
+TornRun(d) == /\ d.ex /\ d.hd = 2 /\ ~d.clob /\ FirstTorn(d.ch) > 0 /\ FirstTorn(d.ch) < Len(d.ch)
+              /\ \A i \in FirstTorn(d.ch)..Len(d.ch) : IsTorn(d.ch[i])
+TornRunPrefix(d) == Scan(SubSeq(d.ch, 1, FirstTorn(d.ch) - 1), 1, Empty)
 \* the load failed although the file has a complete header: stored data became unreadable
 Unreadable(d) == d.ex /\ d.hd = 2 /\ ~Load(d).ok
 
@@ -159,7 +167,7 @@ Open(nm) ==
        THEN /\ w' = [ClosedW EXCEPT !.open = TRUE] /\ Begin("open", CreateOps(nm))
      ELSE IF disk.hd = 0
        THEN IF "TornCreate" \in Dev
-              THEN /\ w' = w /\ pend' = <<>> /\ call' = Failed("open")   \* header unreadable
+              THEN /\ w' = ClosedW /\ pend' = <<>> /\ call' = Failed("open")   \* header unreadable (an old writer is gone)
               ELSE /\ w' = [ClosedW EXCEPT !.open = TRUE] /\ Begin("open", CreateOps(nm))            \* start over
      ELSE IF disk.hd = 1 /\ "TornCreate" \notin Dev
        THEN /\ w' = [ClosedW EXCEPT !.open = TRUE] /\ Begin("open", CreateOps(nm))
